@@ -26,7 +26,9 @@ Inductive ev :=
 | Reload (oa od : list key)
 | Subscribe (oc oa od : list key)
 | Batch (items : list bev)    (* several changes committed together: they arrive in ONE watch response, in order *)
-| GetFail.                    (* the snapshot Get of a pending (re)load fails or times out; the load retries *)
+| GetFail                     (* the snapshot Get of a pending (re)load fails or times out; the load retries *)
+| Rewatch.                    (* the server cancels the most recent watch stream (the connection stays up); the
+                                 replacement stream asks for everything after the revision of its snapshot *)
 
 (* what a listener is told *)
 Inductive call := CAdd (k : key) (v : val) | CDel (k : key).
@@ -57,6 +59,7 @@ Section Spec.
     | Subscribe _ _ _ => (true, true)
     | Batch _ => st
     | GetFail => st
+    | Rewatch => (fst st, snd st || fst st)   (* the server replays everything committed since the last snapshot *)
     end.
   Definition sync_state (h : list ev) : bool * bool := fold_left sync_step h (false, false).
   Definition synced (h : list ev) : bool := fst (sync_state h) && snd (sync_state h).
